@@ -51,7 +51,7 @@ func c12Run(c *h.Ctx) {
 	r := c.R
 	var cur blindLvl
 	var atSignal blindLvl
-	sameNumber := 0
+	sameNumber, sameAmounts := 0, 0
 	nextLevel := func() blindLvl {
 		bb := int64(2 + r.Intn(60))
 		l := blindLvl{Level: cur.Level + 1, SB: bb / 2, BB: bb}
@@ -70,6 +70,12 @@ func c12Run(c *h.Ctx) {
 		}
 		if r.Intn(5) == 0 {
 			l.Dealer = bb
+		}
+		if cur.Level > 0 && l.Level != cur.Level && r.Intn(6) == 0 {
+			// the next level number with the amounts of the level in force (round 8: an update is not a no-op because
+			// its amounts are unchanged)
+			l = blindLvl{Level: cur.Level + 1, Ante: cur.Ante, Dealer: cur.Dealer, SB: cur.SB, BB: cur.BB}
+			sameAmounts++
 		}
 		return l
 	}
@@ -278,6 +284,9 @@ func c12Run(c *h.Ctx) {
 	if sameNumber > 0 {
 		c.Feature("update:same-level-number-other-amounts")
 	}
+	if sameAmounts > 0 {
+		c.Feature("update:next-level-number-same-amounts")
+	}
 	c.Sample(map[string]interface{}{"cfg": p.Cfg, "hands": len(p.SS.Hands), "blind_updates": updates, "last_level": cur.String()})
 }
 
@@ -484,7 +493,7 @@ func init() {
 		Cases:         func(tier string) int { return map[string]int{"quick": 1200, "thorough": 20000}[tier] },
 		MinNontrivial: func(tier string) int { return map[string]int{"quick": 600, "thorough": 10000}[tier] },
 		RequiredFeatures: func(string) []string {
-			return []string{"update:between-hands", "update:mid-hand", "update:break-mid-hand", "paused-after-break-mid-hand", "update:break-ends", "created-on-break", "level-changed-while-hand-ran", "break-set-in-continue-interval", "break-ends-in-continue-interval", "break-during-open-retry", "update:through-the-manager", "update:overlapping-the-open", "update:level-clock-fires-several-times-across-the-open", "update:same-level-number-other-amounts"}
+			return []string{"update:between-hands", "update:mid-hand", "update:break-mid-hand", "paused-after-break-mid-hand", "update:break-ends", "created-on-break", "level-changed-while-hand-ran", "break-set-in-continue-interval", "break-ends-in-continue-interval", "break-during-open-retry", "update:through-the-manager", "update:overlapping-the-open", "update:level-clock-fires-several-times-across-the-open", "update:same-level-number-other-amounts", "update:next-level-number-same-amounts"}
 		},
 		CaseTimeout: 200e9,
 		InProc:      4,
